@@ -34,7 +34,10 @@ def harness_src(g, pkg, props, unconstrained=False, entry="", file_name=""):
         ref_init.append('%s: 0' % gspec.go_quote(k))
     s = []
     s.append("package %s\n" % pkg)
-    s.append('import "vh/ref"\n')
+    if "C18" in props:
+        s.append('import (\n\t"sync"\n\t"sync/atomic"\n\n\t"vh/ref"\n)\n')
+    else:
+        s.append('import "vh/ref"\n')
     s.append("const symAlphabet = %s\n" % go_bytes_str(alpha))
     s.append("const symFile = %s\n" % gspec.go_quote(file_name))
     s.append("const symEntry = %s\n" % gspec.go_quote(entry))
@@ -408,6 +411,39 @@ func Harness_C18(n int) {
 	symReach("end")
 }
 ''' % ((("", "", "") if g.get("_optimized") else (", Memoize(symBool(\"m1\"))", ", Memoize(symBool(\"m2\"))", ", Memoize(symBool(\"m1\"))"))))
+    if "C18" in props:
+        s.append('''
+// Native confirmation of an ownership-discipline violation (run under the
+// race detector, never by the engine): 8 goroutines x 200 Parse calls on the
+// two inputs of the model; every result must equal the stand-alone result.
+func Harness_C18native(n int) {
+	inA := symInputNamed("a", n, true)
+	inB := symInputNamed("b", n, true)
+	aloneA := runReal(inA)
+	aloneB := runReal(inB)
+	var wg sync.WaitGroup
+	var bad int32
+	for g := 0; g < 8; g++ {
+		wg.Add(1)
+		go func(g int) {
+			defer wg.Done()
+			for i := 0; i < 200; i++ {
+				in, want := inA, aloneA
+				if (g+i)%%2 == 1 {
+					in, want = inB, aloneB
+				}
+				o := runReal(in)
+				if !symEqual(o.v, want.v) || !sameStrings(errStrings(o.err), errStrings(want.err)) || !symEqual(o.tr, want.tr) {
+					atomic.AddInt32(&bad, 1)
+				}
+			}
+		}(g)
+	}
+	wg.Wait()
+	symAssert(bad == 0, "C18: concurrent Parse calls returned results different from the stand-alone results")
+	symReach("end")
+}
+''' % ())
     if "C07b" in props:
         s.append('''
 // C07(b): a parser generated without -support-left-recursion never re-enters
